@@ -1870,7 +1870,10 @@ func (s *scanner) addEntryPoints(entryPoints []EntryPoint) []graph.EntryPoint {
 		return nil
 	}
 
-	// Check each entry point ahead of time to see if it's a real file
+	// Check each entry point ahead of time to see if it's a real file. This
+	// rewrites entry points in place, so work on a copy: the caller's slice is
+	// reused by later rebuilds of the same build context.
+	entryPoints = append([]EntryPoint(nil), entryPoints...)
 	entryPointAbsResolveDir := s.fs.Cwd()
 	for i := range entryPoints {
 		entryPoint := &entryPoints[i]
